@@ -1,5 +1,6 @@
 """C02 - the event stream does not depend on TCP segmentation."""
 from __future__ import annotations
+import json
 import itertools, random
 import runner, coreutil, gen_core
 from coreutil import Scenario, events, reads, cut, limit_chunks, segmentations
@@ -45,7 +46,7 @@ def explore(res, tier, seed, model_ok=True):
     maxn = 11 if tier == 'quick' else 14
     res.rule = ('server byte streams (valid, protocol violations, close, rejected handshakes) with application reactions; each stream run as: one read, one byte per read, and random cut sets, '
                 'UTF-8 boundary streams (text fragmented inside characters, invalid continuations after ASCII, pings between fragments) under every single cut; plus ALL 2^(n-1) cut sets of the post-handshake part for short streams (n <= %d); traces (events + bytes written) compared real-vs-real and real-vs-model; '
-                'non-trivial = segmentation with a cut inside a frame; distinct by (stream, cut set)') % maxn
+                'the events VERBATIM (error texts as the application reads them) of oversize / unterminated header blocks and of violations compared across cut sets; non-trivial = segmentation with a cut inside a frame; distinct by (stream, cut set)') % maxn
     scs, groups = [], []
     for i in range(n):
         base = Scenario([], prate=0)
@@ -154,6 +155,42 @@ def explore(res, tier, seed, model_ok=True):
         groups.append((data, idxs))
         res.count('cuts_inside_http_reply', len(idxs))
     res.exhaustive['cut_sets_of_short_streams'] = exh
+    # the events VERBATIM (nothing canonicalised: error texts as the application reads them) must not depend on segmentation either:
+    # header material that never ends / ends beyond the 16 KiB limit, oversize control frames, bad UTF-8 - each under many cut sets
+    raw_groups = []
+    hs_ok = Scenario([], prate=0).good_reply()
+    streams = [b'HTTP/1.1 101 Switching Protocols\r\n' + b'X-Filler: ' + b'f' * 20000 + b'\r\n\r\n',
+               b'HTTP/1.1 101 Switching Protocols\r\n' + b''.join(b'X-H%d: %s\r\n' % (i, b'v' * 90) for i in range(200)) + b'\r\n',
+               b'HTTP/1.1 101 Switching Protocols\r\n' + b'X-Filler: ' + b'f' * 16360 + b'\r\n\r\n' + b'\x81\x02hi',
+               hs_ok + gen_core.server_frame(1, b'caf\xc3') + gen_core.server_frame(1, b'later'),
+               hs_ok + gen_core.server_frame(9, b'p' * 126) + gen_core.server_frame(1, b'later'),
+               hs_ok + gen_core.server_frame(1, b'ok') + gen_core.server_frame(8, b'\x03\xe8\xff\xfe') + gen_core.server_frame(1, b'later')]
+    for data in streams:
+        cutsets = [[], [16384], [16385], [16383], [16500], [1000 * k for k in range(1, 1 + len(data) // 1000)], [4096 * k for k in range(1, 1 + len(data) // 4096)],
+                   [len(data) - 1], [len(data) - 3], [20], [20, 16384], [17, 16390, 16400]]
+        for _ in range(4 if tier == 'quick' else 30):
+            cutsets.append(coreutil.random_cuts(rng, len(data), rng.choice([1, 2, 5, 12])))
+        raw_groups.append([coreutil.scenario_to_json(Scenario(reads(limit_chunks(cut(data, cs))) + [('wait', 1, ('eof',))], {}, prate=0)) for cs in cutsets])
+    raw_items = [j for g in raw_groups for j in g]
+    raw_outs = runner.parallel_map('coreutil', 'real_one_raw', raw_items, chunk=10)
+    pos = 0
+    for g in raw_groups:
+        outs = raw_outs[pos:pos + len(g)]; pos += len(g)
+        for o in outs:
+            if not (isinstance(o, dict) and 'raw' in o):
+                res.crashes.append(o if isinstance(o, dict) else dict(what=str(o)))
+        outs = [o for o in outs if isinstance(o, dict) and 'raw' in o]
+        if not outs:
+            continue
+        res.count('verbatim_event_groups'); res.count('verbatim_event_runs', len(outs))
+        for js, o in zip(g, outs):
+            res.case(('raw', json.dumps(js, sort_keys=True)[-200:]), nontrivial=True)
+        for js, o in zip(g[1:], outs[1:]):
+            if o['raw'] != outs[0]['raw']:
+                k = next((i for i, (a, b) in enumerate(zip(o['raw'], outs[0]['raw'])) if a != b), min(len(o['raw']), len(outs[0]['raw'])))
+                res.failures.append(dict(cls='segmentation', what='the events as the application sees them (texts verbatim) differ between two segmentations of one stream, at event %d' % k,
+                                         input=dict(raw=js), observed=o['raw'][k:k + 1], expected=outs[0]['raw'][k:k + 1]))
+                break
     pairs = coreutil.run_pairs(scs, model_ok)
     for js, line, real, model in pairs:
         if not isinstance(real, dict):
@@ -170,4 +207,8 @@ def explore(res, tier, seed, model_ok=True):
 
 
 def replay(rp):
+    if isinstance(rp.get('input'), dict) and 'raw' in rp['input']:
+        o = coreutil.real_one_raw(rp['input']['raw'])
+        print(o['trace'][-1500:]); print('\n'.join(o['raw'][-6:]))
+        return 0
     return coreutil.replay_core(rp)
